@@ -110,21 +110,21 @@ func (a FileObs) Same(b FileObs) bool {
 }
 
 type Result struct {
-	Exit     int                        `json:"exit"` // 0/1/...; -1 panic; -2 hang
-	Panic    string                     `json:"panic,omitempty"`
-	Stdout   string                     `json:"stdout"`
-	Stderr   string                     `json:"stderr,omitempty"`
-	Out      FileObs                    `json:"out"`
-	OutBefore FileObs                   `json:"out_before"`
-	Ops      []simrt.Op                 `json:"ops,omitempty"`
-	Fired    []simrt.Fault              `json:"fired,omitempty"`
-	Sites    map[string]*simrt.SiteStat `json:"sites,omitempty"`
-	WorldUse map[string]int             `json:"world_use,omitempty"`
-	EnvReads []string                   `json:"env_reads,omitempty"`
-	Stray    []string                   `json:"stray,omitempty"` // files in the world that neither existed before nor are -o
-	Inputs   map[string]string          `json:"-"`               // sha of every input file after the run
-	InputsChanged []string              `json:"inputs_changed,omitempty"`
-	DurMs    float64                    `json:"dur_ms"`
+	Exit          int                        `json:"exit"` // 0/1/...; -1 panic; -2 hang
+	Panic         string                     `json:"panic,omitempty"`
+	Stdout        string                     `json:"stdout"`
+	Stderr        string                     `json:"stderr,omitempty"`
+	Out           FileObs                    `json:"out"`
+	OutBefore     FileObs                    `json:"out_before"`
+	Ops           []simrt.Op                 `json:"ops,omitempty"`
+	Fired         []simrt.Fault              `json:"fired,omitempty"`
+	Sites         map[string]*simrt.SiteStat `json:"sites,omitempty"`
+	WorldUse      map[string]int             `json:"world_use,omitempty"`
+	EnvReads      []string                   `json:"env_reads,omitempty"`
+	Stray         []string                   `json:"stray,omitempty"` // files in the world that neither existed before nor are -o
+	Inputs        map[string]string          `json:"-"`               // sha of every input file after the run
+	InputsChanged []string                   `json:"inputs_changed,omitempty"`
+	DurMs         float64                    `json:"dur_ms"`
 }
 
 var (
